@@ -1,8 +1,160 @@
-(* drv_parsers.ml -- model-side drivers of work package "parsers" (see docs/AGENT_GUIDE.md) *)
+(* drv_parsers.ml -- model-side drivers of work package "parsers" (C06, C07, C15, C16).
+   Line protocol documented in harness/src/drv_parsers.rs (same drivers, same output). *)
 open Model
 open Util
 
+let errname (e : n) : string =
+  match int_of_n e with
+  | 1 -> "EOF" | 2 -> "AUTH" | 3 -> "ATYP" | 4 -> "LEN" | 5 -> "UTF8" | 6 -> "VER" | 7 -> "FMT" | 8 -> "BIG"
+  | k -> "E" ^ string_of_int k
+
+let dest_str (d : dest) : string =
+  match d with
+  | DV4 a -> "V4:" ^ hex_of_bytes a
+  | DV6 a -> "V6:" ^ hex_of_bytes a
+  | DName n -> "N:" ^ hex_of_bytes n
+
+let chunks_of args = List.map bytes_of_hex args
+let closed_of s = (s = "1")
+
+(* authsrv <hashhex> <eof> <chunk>... *)
+let drv_auth args =
+  match args with
+  | h :: eof :: chunks ->
+    let st = rd_of_chunks (chunks_of chunks) (closed_of eof) in
+    (match run_rd (auth_prog (bytes_of_hex h)) st with
+     | (st', SDone _) -> "OK " ^ hex_of_bytes (rd_pending_bytes st')
+     | (_, SFail e) -> "ERR " ^ errname e
+     | (_, SPending) -> "PENDING")
+  | _ -> "BADCASE"
+
+(* destdec <eof> <chunk>... *)
+let drv_destdec prog args =
+  match args with
+  | eof :: chunks ->
+    let st = rd_of_chunks (chunks_of chunks) (closed_of eof) in
+    (match run_rd prog st with
+     | (st', SDone (d, p)) ->
+       Printf.sprintf "OK %s %d %s" (dest_str d) (int_of_n p) (hex_of_bytes (rd_pending_bytes st'))
+     | (_, SFail e) -> "ERR " ^ errname e
+     | (_, SPending) -> "PENDING")
+  | _ -> "BADCASE"
+
+(* destenc <hosthex> <port> <class>   class = n | 4:<octets> | 6:<octets> (the parse oracles' answers) *)
+let drv_destenc args =
+  match args with
+  | [host; port; cls] ->
+    let hostb = bytes_of_hex host in
+    let p4 = fun _ -> if String.length cls > 2 && cls.[0] = '4' then Some (bytes_of_hex (String.sub cls 2 (String.length cls - 2))) else None in
+    let p6 = fun _ -> if String.length cls > 2 && cls.[0] = '6' then Some (bytes_of_hex (String.sub cls 2 (String.length cls - 2))) else None in
+    (match client_encode p4 p6 hostb (n_of_int (int_of_string port)) with
+     | Some w -> "OK " ^ hex_of_bytes w
+     | None -> "ERR")
+  | _ -> "BADCASE"
+
+(* dns <resolver table> <op>...
+   table: name=ip,ip;name=ip   (hex names, hex octets; "-" = empty table)
+   ops:   s:<name>:<ip>.<port>,<ip>.<port>:<age_ms>   seed
+          r:<name>:<port>[:<lit>]                     request (lit = octets if the host is an IP literal)
+          c                                           clear
+   op i happens at model time i (ms) *)
+let split_on c s = List.filter (fun t -> t <> "") (String.split_on_char c s)
+let drv_dns args =
+  match args with
+  | table :: ops ->
+    let tbl =
+      if table = "-" then []
+      else List.map (fun ent ->
+          match String.split_on_char '=' ent with
+          | [nm; ips] -> (bytes_of_hex nm, List.map bytes_of_hex (split_on ',' ips))
+          | _ -> failwith "table") (split_on ';' table) in
+    let resolve _ host = try List.assoc host tbl with Not_found -> [] in
+    let cache = ref [] in
+    let out = Buffer.create 64 in
+    List.iteri (fun i op ->
+        let now = z_of_int i in
+        match String.split_on_char ':' op with
+        | ["c"] -> cache := []
+        | ["s"; nm; addrs; age] ->
+          let al = List.map (fun a ->
+              match String.split_on_char '.' a with
+              | [ip; p] -> (bytes_of_hex ip, n_of_int (int_of_string p))
+              | _ -> failwith "addr") (split_on ',' addrs) in
+          cache := cache_seed !cache now (bytes_of_hex nm) al (z_of_int (int_of_string age))
+        | "r" :: nm :: port :: lit ->
+          let parse_ip _ = match lit with [l] -> Some (bytes_of_hex l) | _ -> None in
+          let (c', r) = dns_request parse_ip resolve !cache now (bytes_of_hex nm) (n_of_int (int_of_string port)) in
+          cache := c';
+          (match r with
+           | Some (ip, p) -> Buffer.add_string out (Printf.sprintf "%s.%d " (hex_of_bytes ip) (int_of_n p))
+           | None -> Buffer.add_string out "ERR ")
+        | _ -> failwith "op") ops;
+    Buffer.contents out
+  | _ -> "BADCASE"
+
+let side_max s = if s = "c" then udp_max_client else udp_max_server
+
+(* udpenc <side> <payloadhex> *)
+let drv_udpenc args =
+  match args with
+  | [side; d] ->
+    (match udp_encode (side_max side) (bytes_of_hex d) with
+     | Some w -> "OK " ^ hex_of_bytes w
+     | None -> "ERR")
+  | _ -> "BADCASE"
+
+(* udpdec <side> <eof> <chunk>... *)
+let drv_udpdec args =
+  match args with
+  | side :: eof :: chunks ->
+    let (ds, e) = udp_stream_rd (side_max side) (chunks_of chunks) (closed_of eof) in
+    let b = Buffer.create 256 in
+    List.iter (fun d -> Buffer.add_string b ("D " ^ hex_of_bytes d ^ " ")) ds;
+    Buffer.add_string b (match e with
+        | SDone _ -> "END STOP"
+        | SFail x -> "END ERR " ^ errname x
+        | SPending -> "END PENDING");
+    Buffer.contents b
+  | _ -> "BADCASE"
+
+(* socksreq <eof> <chunk>... *)
+let drv_socksreq args =
+  match args with
+  | eof :: chunks ->
+    let st = rd_of_chunks (chunks_of chunks) (closed_of eof) in
+    (match run_rd request_prog st with
+     | (st', SDone q) ->
+       Printf.sprintf "OK %d %s %d %s" (int_of_n q.q_cmd) (dest_str q.q_dest) (int_of_n q.q_port)
+         (hex_of_bytes (rd_pending_bytes st'))
+     | (_, SFail e) -> "ERR " ^ errname e
+     | (_, SPending) -> "PENDING")
+  | _ -> "BADCASE"
+
+(* socks <open_ok> <eof> <chunk>... *)
+let drv_socks args =
+  match args with
+  | ok :: eof :: chunks ->
+    let evs = socks_session_rd (fun _ _ -> ok = "1") (chunks_of chunks) (closed_of eof) in
+    let w = Buffer.create 32 and opn = ref "-" and fwd = ref "-" and tun = ref false and ended = ref false in
+    List.iter (fun e ->
+        match e with
+        | SWrite b -> List.iter (fun x -> Buffer.add_string w (Printf.sprintf "%02x" (int_of_n x))) b
+        | SOpen (d, p) -> opn := Printf.sprintf "%s/%d" (dest_str d) (int_of_n p)
+        | STunnel f -> tun := true; fwd := hex_of_bytes f
+        | SEnd -> ended := true) evs;
+    Printf.sprintf "W=%s OPEN=%s TUNNEL=%d FWD=%s END=%d"
+      (if Buffer.length w = 0 then "-" else Buffer.contents w) !opn (if !tun then 1 else 0) !fwd (if !ended then 1 else 0)
+  | _ -> "BADCASE"
+
 let dispatch (drv : string) (args : string list) : string option =
-  ignore args;
   match drv with
+  | "authsrv" -> Some (drv_auth args)
+  | "destdec" -> Some (drv_destdec dest_prog args)
+  | "udpinit" -> Some (drv_destdec udp_init_prog (List.tl args))
+  | "destenc" -> Some (drv_destenc args)
+  | "dns" -> Some (drv_dns args)
+  | "udpenc" -> Some (drv_udpenc args)
+  | "udpdec" -> Some (drv_udpdec args)
+  | "socksreq" -> Some (drv_socksreq args)
+  | "socks" -> Some (drv_socks args)
   | _ -> None
